@@ -204,10 +204,11 @@ def validated_api(ctx, P):
         pcs = [e.d["formula"] if e.pol else guards.neg(e.d["formula"]) for e in st.events if e.kind == "guard"]
         pc = ("and", tuple(pcs)) if pcs else ("const", True)
         if st.status == "return":
-            want = ("and", (("or", (("isinstance", "s", "float"), ("isinstance", "s", "int"))), ("not", ("lt", "s", "0"))))
-            okr = guards.equivalent(pc, want)[0]
             asg = [e for e in st.events if e.kind == "assign"]
-            if not asg or "self.sample(" not in asg[0].d["value"]:
+            s_ = asg[0].d["target"] if asg else "s"
+            want = ("and", (("or", (("isinstance", s_, "float"), ("isinstance", s_, "int"))), ("not", ("lt", s_, "0"))))
+            okr = guards.equivalent(pc, want)[0]
+            if not asg or "self.sample(" not in asg[0].d["value"] or (st.ret or "").replace(" ", "") != s_:
                 okr = False
             if not okr:
                 ctx.violation(ob, "R7.validated-sampling", "Distribution._sample", "return under %s" % guards.show(pc), "validity-test",
